@@ -34,7 +34,9 @@ def record_kaiser(spec):
                 f0 = b0 / L
                 ph = float(rng.uniform(0, 2 * math.pi))
                 x = np.cos(2 * math.pi * f0 * np.arange(N) + ph)
-                a = speckit.SpectrumAnalyzer(x, 1.0, win="kaiser", psll=P, order=-1, olap=0.5, backend=spec["backend"])
+                from scipy.signal.windows import kaiser as _spk
+                wparam = {"str": "kaiser", "np": shim, "sp": _spk}[spec.get("winparam", "str")]       # every documented way of asking for the Kaiser window
+                a = speckit.SpectrumAnalyzer(x, 1.0, win=wparam, psll=P, order=-1, olap=0.5, backend=spec["backend"])
                 calls.clear()
                 r0 = a.compute_single_bin(f0, L=L)
                 if calls:
@@ -57,7 +59,7 @@ def record_kaiser(spec):
                     r = a.compute_single_bin(fb / L, L=L)
                     rel = float(r.ps[0]) / p0
                     cdb = int(math.ceil(1000 * math.log10(max(rel, 1e-40))))      # centi-dB, rounded up
-                    ev.append({"t": "leak", "psll": int(P), "L": int(L), "off100": int(abs(off) * 100), "cdb": cdb})
+                    ev.append({"t": "leak", "psll": int(P), "L": int(L), "off100": int(abs(off) * 100), "cdb": cdb, "odd": int(L % 2)})
     finally:
         analysis.np_kaiser = real
     return {"meta": dict(spec), "c": {}, "ev": ev}
@@ -80,7 +82,8 @@ def run(tier):
         Ls = [64, 101, 512] if k % 2 == 0 else [100, 4096]
         if k == 1:
             Ls = Ls + [65536]
-        specs.append(dict(seed=rnd.randrange(2 ** 31), pslls=ps if tier == "thorough" else ps[::2] + [200], Ls=Ls, deltas=deltas, backend=["numba", "numpy"][k % 2]))
+        specs.append(dict(seed=rnd.randrange(2 ** 31), pslls=ps if tier == "thorough" else ps[::2] + [200], Ls=Ls, deltas=deltas, backend=["numba", "numpy"][k % 2],
+                          winparam=["str", "sp", "np", "str"][k % 4]))
     trs = common.pmap(record_kaiser, specs, chunksize=1)
     vd, tres = traces.validate("KaiserTrace", f"{PID}_trace", trs, constants=dict(Pslls=Raw("{40}"), KLs=Raw("{64}")), spec="TSpec")
     V.model(tres, "KaiserTrace.tla (captured Kaiser calls + measured leakage)")
@@ -97,7 +100,9 @@ def run(tier):
             e = t["ev"][l - 1]
             own = clause.startswith("C12:") or clause.startswith("C05:") or clause.startswith("ANY:")
             if own:
-                V.violation(f"{PID}|trace|{clause}|P={'ge155' if e['psll'] >= 155 else 'lt155'}|L={'le101' if e['L'] <= 101 else ('ge65536' if e['L'] >= 65536 else '102to65535')}",
+                # how far beyond the P-1 allowance (leak events): the known finding is an excess below 1 dB
+                exc = "" if e["t"] != "leak" else ("|excess_lt_1dB" if e["cdb"] + (e["psll"] - 1) * 100 < 100 else "|excess_ge_1dB")
+                V.violation(f"{PID}|trace|{clause}|P={'ge155' if e['psll'] >= 155 else 'lt155'}|L={'le101' if e['L'] <= 101 else ('ge65536' if e['L'] >= 65536 else '102to65535')}{exc}",
                             {"kind": "kaiser_trace", "spec": t["meta"], "event": l, "message": f"KaiserTrace rejected {e}: {clause}"})
     V.set("leakage_measurements", nleak)
     V.set("worst_relative_response_centi_dB_by_psll", worst)
